@@ -14,7 +14,12 @@ META = {
              "current_never_shrinks (without pruning |map| = number of queue objects ever created, for every schedule); classify_sound "
              "ties the decision to the facts (no deleting call on lock.queues); the model is compared with the real lock on generated "
              "lock/unlock/expiry/cancel histories over up to 12 keys."),
-    "note": ("Trusted: Lean kernel; extract/c28.go; harness/c28.go + lock.VerifQueueCount; sync.Map Load/LoadOrStore/CompareAndDelete "
+    "note": ("SCOPE: the property's statement and anchors are the business lock (app/core/hydra/lock/lock.go: the per-key queue map); "
+             "that is what is proved and exercised here. NOT covered although the title says `guard`: the swamp's in-flight-create tracker "
+             "`creatingTreasures` (swamp.go; an entry is stored by CreateTreasure and deleted by the first Save — a create whose operation "
+             "fails before Save, e.g. a failed increment/patch on a new key, can leave its entry until the swamp closes; swamp_patch.go "
+             "removes it explicitly, the Increment* paths are not checked by this property) and the per-treasure guard queues. "
+             "Trusted: Lean kernel; extract/c28.go; harness/c28.go + lock.VerifQueueCount; sync.Map Load/LoadOrStore/CompareAndDelete "
              "are atomic; the queue-level shape is C14's (facts wake/wakeOnlyIfHead re-extracted). The correspondence runs histories (as the property quantifies) plus the one interleaving that matters to pruning — a caller stopped between getQueue and enqueue while its queue is emptied (hook lock.gotq) — other interleavings of the map protocol are covered by the theorems and by C14's forced schedules / C14s trace inclusion on the same code. The property's title also names guard bookkeeping: treasure guards are fields of their treasure object (guard.New() per treasure, no registry map), freed with the treasure — there is no per-key guard state to prune."),
     "design_ref": "§8 C28, Appendix E (business lock)",
 }
